@@ -131,6 +131,32 @@ def _mirsym():
         bounds="every ops string of length <= 3 (quick) / <= 5 (thorough), payload values symbolic", spec=sm.MergeKeepSpec())
 
 
+    for pid, tag in (("C02", "C02.a"), ):
+        add(f"{tag}/merge", pid, "mirsym", Q, "order merge of two sorted partials == prefix of the stable sort of the concatenation (same obligation as C05.c/merge)",
+            ["engine::operators::merge::merge"], bounds="see C05.c/merge", spec=sm.MergeSpec())
+        add(f"{tag}/merge_keep", pid, "mirsym", Q, "payload columns follow the merge permutation", ["engine::operators::merge_keep::merge_keep"],
+            bounds="see C05.c/merge_keep", spec=sm.MergeKeepSpec())
+    for pid, tag in (("C02", "C02.a"), ("C05", "C05.c")):
+        add(f"{tag}/merge_keep_nullable", pid, "mirsym", Q, "merge_keep_nullable: payload values and NULL bits follow the merge permutation (null maps possibly shorter than the data)",
+            ["engine::operators::merge_keep::merge_keep_nullable", "bitvec::BitVec::is_set", "bitvec::BitVecMut::set"],
+            bounds="every ops string of length <= 3 (quick) / <= 4 plus three 9-row strings crossing a bitmap byte (thorough); values and bitmap bytes symbolic",
+            spec=sm.MergeKeepNullableSpec())
+    for pid, tag in (("C02", "C02.b"), ("C04", "C04.d")):
+        add(f"{tag}/merge_deduplicate", pid, "mirsym", Q,
+            "merge_deduplicate on strictly increasing group keys: strictly increasing union, each key once; MergeOps replay reproduces it (MergeRight iff equal keys)",
+            ["engine::operators::merge_deduplicate::merge_deduplicate"],
+            bounds="|l|+|r| <= 4 (quick) / <= 7 (thorough); key types i64 asc/desc, u8 (+u16,u32,u64 thorough)", spec=sm.MergeDedupSpec())
+        add(f"{tag}/merge_aggregate", pid, "mirsym", Q,
+            "merge_aggregate(ops, accL, accR, agg) == per-group combine of the partials the ops assign to the group; Err iff a partial SUM overflows",
+            ["engine::operators::merge_aggregate::merge_aggregate", "merge_aggregate::<impl Combinable<i64> for i64>::combine"],
+            bounds="every ops string merge_deduplicate can emit up to length 3 (quick) / 5 (thorough) x {SUM, COUNT, MAX, MIN}; partials symbolic i64 (counts 0..2^40)",
+            spec=sm.MergeAggregateSpec(), assumptions=["COUNT partials are row counts in [0, 2^40)"])
+        add(f"{tag}/merge_drop", pid, "mirsym", Q, "merge_drop: secondary key columns keep one value per output group",
+            ["engine::operators::merge_drop::merge_drop"], bounds="every valid ops string up to length 3 (quick) / 5 (thorough)", spec=sm.MergeDropSpec())
+    add("C06.c/merge_aggregate", "C06", "mirsym", Q, "cross-partition SUM merge is exact or fails with Overflow (same obligation as C04.d/merge_aggregate)",
+        ["engine::operators::merge_aggregate::merge_aggregate"], bounds="see C04.d/merge_aggregate", spec=sm.MergeAggregateSpec())
+
+
 _mirsym()
 
 
